@@ -9,8 +9,8 @@ LEAN_MODULE = 'KernProofs.C08'
 EXTRA_MODULES = ['KernProofs.C08Prefix', 'KernProofs.C08Range']
 THEOREMS = ['KM.C08.C08_terminator_count', 'KM.C08.C08_terminator_not_doubled', 'KM.C08.C08_no_terminator_without_range', 'KM.C08.C08_terminator_cells', 'KM.C08.C08_body_is_full_score_rows', 'KM.C08.C08_nested_split_witness',
             'KM.C08P.bodyRows_prefix', 'KM.C08P.toStage_le', 'KM.C08P.C08_excerpt_from_start', 'KM.C08P.bodyRows_range_free',
-            'KM.C08R.preambleRow_quiet', 'KM.C08R.preambleRow_header', 'KM.C08R.loop_chain', 'KM.C08R.loop_aligned', 'KM.C08R.preamble_flat', 'KM.C08R.sigCancelled_false',
-            'KM.C08R.signatureRows_settled', 'KM.C08R.C08_preamble_flat', 'KM.C08R.C08_excerpt_flat', 'KM.C08R.C08_excerpt_spec', 'KM.C08R.toy_in_core']
+            'KM.C08R.preambleRow_quiet', 'KM.C08R.preambleRow_silent', 'KM.C08R.preambleRow_header', 'KM.C08R.loop_chain', 'KM.C08R.loop_walk', 'KM.C08R.preamble_flat', 'KM.C08R.sigCancelled_false',
+            'KM.C08R.signatureRows_settled', 'KM.C08R.C08_preamble_flat', 'KM.C08R.C08_excerpt_flat', 'KM.C08R.C08_excerpt_spec', 'KM.C08R.toy_in_core', 'KM.C08R.toy_closed_split_in_core']
 FINGERPRINTS = ['exporter.Exporter.export_string', 'exporter.Exporter.is_signature_cancelled', 'exporter.Exporter.export_token', 'importer.Importer',
                 'document.Document', 'document.SignatureNodes']
 RULE = ('core stream: generated **kern-only documents whose signatures precede the first measure (the same kinds in every spine), whose splits are '
